@@ -7,7 +7,7 @@ from vlib import load_known
 # C18_PlainProcessed: a file that a change applies to gets its diff / its new text on standard output in the dry
 # modes - also when another file of the run fails (what the modes emit for a file must agree with what the default
 # mode writes for it, whatever happens to the other files)
-PREDS = {"C12_DryRunNeverWrites", "C12_DescriptionsOnStderrOnly", "C18_PlainProcessed"}
+PREDS = {"C12_DryRunNeverWrites", "C12_DescriptionsOnStderrOnly", "C12_StdoutIsOutputOnly", "C18_PlainProcessed"}
 ASSUME = [
     "strace reports every file-mutating system call; the tree digest (sha, size, mtime, inode, mode, entry set) is taken before and after",
     "harness/api.go ApplyUnifiedDiff is a strict applier (context and '-' lines must match the original byte for byte)",
